@@ -513,8 +513,8 @@ THR_ALL = FIB + RING
 THR_SRC = {'ring': THR_ALL, 'mq': THR_ALL, 'fibre': THR_ALL}
 
 
-def thr_stage(name, mode, preset, cc='gcc', tiers=('quick', 'thorough'), nproc=2):
-    return Stage(name, ['harness/threads.c'], THR_SRC[mode], preset=preset, cc=cc, nproc=nproc, tiers=tiers,
+def thr_stage(name, mode, preset, cc='gcc', tiers=('quick', 'thorough'), nproc=2, cflags=()):
+    return Stage(name, ['harness/threads.c'], THR_SRC[mode], preset=preset, cc=cc, nproc=nproc, tiers=tiers, cflags=cflags,
                  args={'quick': ['--extra', mode], 'thorough': ['--extra', mode]},
                  env=TSAN_ENV if preset == 'tsan' else {}, post=tsan_post if preset == 'tsan' else None,
                  timeout={'quick': 600, 'thorough': 3600},
@@ -527,11 +527,15 @@ prop('C07',
      'refused claim) is taken thousands of times per run: SPSC ring (buf_len 2,3,4,5,7,17; put and putchar vs get and '
      'empty; random start index), MPSC queue (depth 1-4, 2-15 sender threads, plain payload writes and reads), and 2-8 '
      'threads posting fibre events and fibre_run_atomic wake-ups against the main-context scheduler loop (plain event '
-     'payload). Built with the genuine ThreadSanitizer (gcc; clang in the thorough tier); every report is a violation, '
+     'payload). Built with the genuine ThreadSanitizer (gcc, once over <stdatomic.h> and once over the fallback macros of atomic.h with -D__STDC_NO_ATOMICS__; clang in the thorough tier); every report is a violation, '
      'de-duplicated by the innermost librfn frames. Each round is one evaluation; rounds differ in interleaving, so '
      'distinct = distinct (configuration, refusal-count) signatures observed; non-trivial = every round (all exercise '
      'cross-thread hand-offs).',
      [thr_stage('tsan-ring', 'ring', 'tsan'), thr_stage('tsan-mq', 'mq', 'tsan'), thr_stage('tsan-fibre', 'fibre', 'tsan'),
+      # librfn's fallback atomics (include/librfn/atomic.h, used when the compiler lacks <stdatomic.h>)
+      thr_stage('tsan-ring-fallback', 'ring', 'tsan', nproc=1, cflags=['-D__STDC_NO_ATOMICS__']),
+      thr_stage('tsan-mq-fallback', 'mq', 'tsan', nproc=1, cflags=['-D__STDC_NO_ATOMICS__']),
+      thr_stage('tsan-fibre-fallback', 'fibre', 'tsan', nproc=1, cflags=['-D__STDC_NO_ATOMICS__']),
       thr_stage('tsan-ring-clang', 'ring', 'tsan', cc='clang', tiers=('thorough',)),
       thr_stage('tsan-mq-clang', 'mq', 'tsan', cc='clang', tiers=('thorough',)),
       thr_stage('tsan-fibre-clang', 'fibre', 'tsan', cc='clang', tiers=('thorough',))],
